@@ -379,9 +379,9 @@ func c06R3(c *Ctx, rule string) {
 	}
 	if f := c.need(rule, "internal/server", "TLS.unmarshalClientHello"); f != nil {
 		rnd, ctx := false, false
-		allInstrs(f, func(i ssa.Instruction) {
+		p.unitInstrs(f, func(i ssa.Instruction) {
 			if call, ok := i.(*ssa.Call); ok && calleeName(&call.Call) == "builtin.copy" {
-				dst, src := call.Call.Args[0], call.Call.Args[1]
+				dst, src := call.Call.Args[0], p.canonIn(f, call.Call.Args[1])
 				chRandom := p.Field("internal/server", "ClientHello", "random")
 				chSession := p.Field("internal/server", "ClientHello", "sessionId")
 				if mentionsField(dst, sRand) && mentionsField(src, chRandom) {
@@ -452,9 +452,9 @@ func c06R3(c *Ctx, rule string) {
 			}
 		})
 		split := false
-		allInstrs(uh, func(i ssa.Instruction) {
+		p.unitInstrs(uh, func(i ssa.Instruction) {
 			if call, ok := i.(*ssa.Call); ok && calleeName(&call.Call) == "builtin.copy" {
-				if sl, ok := call.Call.Args[1].(*ssa.Slice); ok && mentionsField(call.Call.Args[0], sRand) {
+				if sl, ok := p.canonIn(uh, call.Call.Args[1]).(*ssa.Slice); ok && mentionsField(call.Call.Args[0], sRand) {
 					lo, hi := int64(0), int64(-1)
 					if sl.Low != nil {
 						lo, _ = intConst(sl.Low)
